@@ -278,3 +278,7 @@ func RegisterKey(privHex string, addr, pub []byte) {}
 // SetMapOrder selects the iteration order the executor uses for Go maps from
 // now on (0 ascending, 1 descending, 2 rotated); natively Go randomises.
 func SetMapOrder(mode int) {}
+
+// Thorough reports whether the check runs in the thorough tier (harnesses
+// widen their universes then).
+func Thorough() bool { return os.Getenv("VERIF_TIER") == "thorough" }
